@@ -211,6 +211,63 @@ func vfC07Exporter(res *vfResult, p *vfPair, scenario string) {
 				}
 			}
 		}
+		// the same question for a connection restored from the serialised state of this one (DTLS 1.2 only: the
+		// restored Conn hands the application exporter output too)
+		if ver != "dtls12" {
+			continue
+		}
+		raw, err := st.MarshalBinary()
+		if err != nil {
+			res.Count("exporter_restore_failed", 1)
+			res.Seen("exporter_restore_failures", "MarshalBinary: "+vfErrNorm(err))
+
+			continue
+		}
+		var st2 State
+		if err := st2.UnmarshalBinary(raw); err != nil {
+			res.Count("exporter_restore_failed", 1)
+			res.Seen("exporter_restore_failures", "UnmarshalBinary: "+vfErrNorm(err))
+
+			continue
+		}
+		n2 := vfNewNet()
+		nc, err := ResumeWithOptions(&st2, n2.Endpoint("restored", vfClientAddr), vfAddr(vfServerAddr))
+		if err != nil {
+			res.Count("exporter_restore_failed", 1)
+			res.Seen("exporter_restore_failures", "ResumeWithOptions: "+vfErrNorm(err))
+
+			continue
+		}
+		if err := nc.Handshake(); err != nil { // no I/O for a restored connection
+			res.Count("exporter_restore_failed", 1)
+			res.Seen("exporter_restore_failures", "Handshake of the restored connection: "+vfErrNorm(err))
+			_ = nc.Close()
+
+			continue
+		}
+		rst, ok := nc.ConnectionState()
+		if !ok {
+			res.Count("exporter_restore_failed", 1)
+			res.Seen("exporter_restore_failures", "ConnectionState of the restored connection unavailable")
+		} else {
+			for _, label := range []string{"EXTRACTOR-dtls_srtp", "EXPORTER-verif-a"} {
+				out, err := rst.ExportKeyingMaterial(label, nil, 40)
+				if err != nil {
+					res.Count("exporter_errors", 1)
+
+					continue
+				}
+				res.Count("exporter_outputs_checked_on_restored_connection", 1)
+				for name, d := range vfPublicDerivations(label, cr[:], sr[:], 40) {
+					if bytes.Equal(d, out) {
+						res.Violate("C07:exporter-computable-from-cleartext:restored:"+ver,
+							fmt.Sprintf("%s: ExportKeyingMaterial(%q) on the connection restored from %s's exported state equals %s, which needs no secret",
+								scenario, label, side.Name, name), nil)
+					}
+				}
+			}
+		}
+		_ = nc.Close()
 	}
 }
 
@@ -346,6 +403,29 @@ func vfC07Session(t *testing.T, res *vfResult, idx int, suite vfSuiteInfo) {
 	target := p.S
 	if idx%2 == 0 {
 		target = p.C
+	}
+	// first: unprotected application data in records that merely claim a protected epoch (1 .. read epoch + 1)
+	{
+		from := vfAddrOf(map[bool]string{true: "c", false: "s"}[target == p.S])
+		cur := int(vfCommon(target.Conn).RemoteEpoch())
+		claimed := map[int][]byte{}
+		for e := 1; e <= cur+1 && e <= 8; e++ {
+			m := append([]byte(fmt.Sprintf("unprotected-claiming-epoch-%d-", e)), vfRandBytes(r, 12)...)
+			claimed[e] = m
+			n.Deliver(string(target.EP.addr), vfLegacyRecord(23, 0xfefd, uint16(e), uint64(7000+e), nil, -1, m), from)
+			res.Count("unprotected_appdata_claiming_epoch_injected", 1)
+		}
+		time.Sleep(50 * time.Millisecond)
+		synctest.Wait()
+		for _, rd := range target.ReadsSnapshot() {
+			for e, m := range claimed {
+				if bytes.Contains(rd, m[:30]) {
+					res.Violate(fmt.Sprintf("C07:unprotected-application-data-delivered:claimed-epoch-%s:%s", map[bool]string{true: "current-or-later", false: "earlier"}[e >= cur],
+						map[bool]string{true: "dtls13", false: "dtls12"}[vfIs13(p.C.Conn)]),
+						fmt.Sprintf("session/%s: application data that arrived in an unprotected record claiming epoch %d (read epoch %d) was returned by Read on %s", cfg.FP(), e, cur, target.Name), nil)
+				}
+			}
+		}
 	}
 	n.Deliver(string(target.EP.addr), inj, vfAddrOf(map[bool]string{true: "c", false: "s"}[target == p.S]))
 	time.Sleep(50 * time.Millisecond)
